@@ -59,11 +59,13 @@ def firmware_staging(bd):
 	with open(os.path.join(asm, "system.h"), "w") as f:
 		f.write("#pragma once\n"
 			"#ifdef VERIF_IRQ_SIM\n"
-			"/* interrupt-injection builds: the driver serves simulated interrupts only while this is 0 */\n"
-			"extern volatile int verif_irq_masked;\n"
+			"/* interrupt-injection builds: the driver serves simulated IRQs only while verif_irq_masked is 0 and\n"
+			" * simulated FIQs (which may preempt an IRQ handler) only while verif_fiq_masked is 0 */\n"
+			"extern volatile int verif_irq_masked, verif_fiq_masked;\n"
 			"extern unsigned long verif_lock_sections;\n"
-			"#define local_firq_save(x) do { (x) = verif_irq_masked; verif_irq_masked = 1; verif_lock_sections++; } while (0)\n"
-			"#define local_irq_restore(x) do { verif_irq_masked = (int) (x); } while (0)\n"
+			"#define local_firq_save(x) do { (x) = (verif_irq_masked ? 1 : 0) | (verif_fiq_masked ? 2 : 0); "
+			"verif_irq_masked = 1; verif_fiq_masked = 1; verif_lock_sections++; } while (0)\n"
+			"#define local_irq_restore(x) do { verif_irq_masked = ((x) & 1) != 0; verif_fiq_masked = ((x) & 2) != 0; } while (0)\n"
 			"#else\n"
 			"/* host stub: no interrupts on a host */\n"
 			"#define local_firq_save(x) do { (x) = 0; } while (0)\n"
